@@ -46,6 +46,7 @@ for pid in sorted(PROPS):
     })
 m["checks"] = checks
 m["engines"][0]["serves_properties"] = sorted(PROPS)
+m["hooks"]["baseline_off_cmd"] = "cd /verif && . ./env.sh && cd /repo && \"$VERIF_GO\" test -vet=off -count=1 -timeout 25m ./..."
 m["notes"] = "20 properties claimed (C09-C19, C21-C25, C42-C44, C46), 26 not applicable (pure functions). No hooks in /repo: checks instrument a scratch copy at check time. Nine genuine defects were repaired by fix: commits in /repo, three are recorded in known_findings.json (DESIGN.md 12)."
 json.dump(m, open('/verif/MANIFEST.json', 'w'), indent=1)
 print(len(checks), "checks")
